@@ -295,6 +295,11 @@ func (r *FnRun) typeInvariant(v Val, t types.Type) {
 		if x.Elem != nil && len(r.root.knownRanges) < 16 {
 			r.root.knownRanges = append(r.root.knownRanges, [2]*Term{x.Ptr, tb.Mul(x.Cap, tb.BVI(64, r.e.sizeof(x.Elem)))})
 		}
+	case Scalar:
+		// typed pointers are nil or user-space addresses
+		if _, isP := t.Underlying().(*types.Pointer); isP && x.T.Sort == BV64 {
+			r.addFact(tb.ULt(x.T, tb.BVU(64, 1<<47)))
+		}
 	case StructV:
 		if su, ok := t.Underlying().(*types.Struct); ok {
 			for i, f := range x.Fields {
@@ -435,6 +440,9 @@ func (r *FnRun) isLocalHeapAddr(a *Term) *Term {
 			sz = 1
 		}
 		eqs = append(eqs, tb.ULt(tb.Sub(a, t), tb.BVI(64, sz)))
+	}
+	for _, lr := range r.root.localRanges {
+		eqs = append(eqs, tb.ULt(tb.Sub(a, lr[0]), lr[1]))
 	}
 	return tb.Or(eqs...)
 }
